@@ -2523,6 +2523,7 @@ class Stream(AbstractStream):
     @phases.setter
     def phases(self, phases):
         phases = set(phases)
+        if not phases: raise ValueError('at least one phase must be given')
         if len(phases) == 1:
             self.phase, = phases
         else:
